@@ -68,7 +68,8 @@ class C08(Prop):
     vacuity = {"quick": ["probe:iter_event_inside_block", "probe:iter_finalised_after_block_left",
                          "probe:raise_through_block", "probe:nested_depth_ge_2", "probe:advance_delivered_inside_block",
                          "probe:mode_rule_seen", "probe:mode_query_seen", "probe:with_query_block",
-                         "probe:iterator_over_rule_or_infer_query", "probe:helper_called_inside_block", "fault_fired:F3_callback_raise",
+                         "probe:iterator_over_rule_or_infer_query", "probe:helper_called_inside_block", "probe:rule_branch_block", "probe:raise_kind_KeyboardInterrupt",
+                         "probe:raise_kind_GeneratorExit", "probe:raise_kind_StopIteration", "fault_fired:F3_callback_raise",
                          "fault_fired:F4_intrinsic_abort"]}
 
     # ------------------------------------------------------------------ generation
@@ -102,7 +103,7 @@ class C08(Prop):
         for _ in range(n_ops):
             r = rng.random()
             if r < 0.22 and depth < 5:
-                kind = rng.choice(["sym", "rule", "sym", "symq", "ruleq", "q"])
+                kind = rng.choice(["sym", "rule", "sym", "symq", "ruleq", "q", "refinement", "alternative"])
                 op = ["enter", kind] + ([rng.choice(an_ids)] if kind in ("symq", "ruleq", "q") else [])
                 ops.append(op)
                 depth += 1
@@ -111,7 +112,8 @@ class C08(Prop):
                 depth -= 1
             elif r < 0.42 and depth > 0:
                 d = rng.randint(1, depth)
-                ops.append(["raise", d])
+                ops.append(["raise", d, rng.choice(["Planned", "Planned", "StopIteration", "GeneratorExit",
+                                                     "KeyboardInterrupt"])])
                 depth -= d
             elif r < 0.58 and len(slots) < 4:
                 name = f"s{sn}"
@@ -186,6 +188,18 @@ class C08(Prop):
                                 cm = rule_mode(run.pool.queries[op[2]])
                                 cm.__enter__()
                                 m.stack.append(("modeq", EQLMode.Rule))
+                            elif op[1] in ("refinement", "alternative"):
+                                # rule-tree branch blocks (rule.py): `with refinement(cond):` pushes the new branch on
+                                # the expression-context stack; only meaningful inside a block that has a current
+                                # parent, otherwise constructing it raises and nothing may change
+                                from entity_query_language import refinement as _ref, alternative as _alt
+                                with symbolic_mode(mode=_symbolic_mode.get() or EQLMode.Rule):
+                                    cond = scratch.var.a > 0
+                                branch = (_ref if op[1] == "refinement" else _alt)(cond)
+                                cm = branch
+                                cm.__enter__()
+                                m.stack.append(("expr",))
+                                sim.count("probe:rule_branch_block")
                             else:
                                 cm = run.pool.queries[op[2]]
                                 cm.__enter__()
@@ -205,7 +219,13 @@ class C08(Prop):
                     elif kind in ("leave", "raise"):
                         n = 1 if kind == "leave" else op[1]
                         n = min(n, len(frames))
-                        exc = PlannedError("planned") if kind == "raise" else None
+                        exc = None
+                        if kind == "raise":
+                            ek = op[2] if len(op) > 2 else "Planned"
+                            exc = {"Planned": PlannedError("planned"), "StopIteration": StopIteration("planned"),
+                                   "GeneratorExit": GeneratorExit("planned"),
+                                   "KeyboardInterrupt": KeyboardInterrupt("planned")}[ek]
+                            sim.count("probe:raise_kind_" + ek)
                         if kind == "raise" and n:
                             sim.count("probe:raise_through_block")
                         for _ in range(n):
@@ -218,13 +238,19 @@ class C08(Prop):
                                 else:
                                     try:
                                         raise exc
-                                    except PlannedError:
+                                    except BaseException:
                                         et, ev, tb = sys.exc_info()
                                         swallowed = cm.__exit__(et, ev, tb)
                                         if swallowed:
-                                            sim.violate("exception-swallowed-by-block", {"frame": fk})
-                            except PlannedError:
-                                pass      # contextmanager-based blocks re-raise the exception they were given
+                                            sim.violate("exception-swallowed-by-block", {"frame": fk, "exc": type(exc).__name__})
+                            except (SimBudget, SimTimeout):
+                                raise
+                            except BaseException as e:
+                                # contextmanager-based blocks re-raise the exception they were given (a StopIteration
+                                # thrown into one comes back as RuntimeError); what matters is the state left behind
+                                if not isinstance(e, (PlannedError, StopIteration, GeneratorExit, KeyboardInterrupt,
+                                                      RuntimeError)):
+                                    sim.event("exit-raised-other", type(e).__name__)
                             if list(estack) != before or any(a is not b for a, b in zip(estack, before)):
                                 sim.violate("expr-stack-not-restored", {"after": op, "frame": fk,
                                                                         "depth": len(estack), "expected": len(before)})
